@@ -68,8 +68,15 @@ def box_blocks(repo, res):
 def box_statistics(repo, res):
     f = repo.method(B2D, '_compute_box_statistics')
     pool = [s for s in ast.walk(f.node) if isinstance(s, ast.Assign)]
-    for w, meaning in (('data = ' + nf_text('self._sigmaclip_boxes(data, axis=axis)'), 'boxes are sigma-clipped once'),
-                       ('bkg = ' + nf_text('self.bkg_estimator(data, axis=axis)'), 'background estimator on the clipped box pixels'),
+    # boxes are sigma-clipped once, before both estimators: through the private helper or directly
+    clip_forms = ('data = ' + nf_text('self._sigmaclip_boxes(data, axis=axis)'),
+                  'data = ' + nf_text('self.sigma_clip(data, axis=axis, masked=False, copy=False)'))
+    okc = any(SP.nf_stmt(s_) in clip_forms for s_ in pool)
+    res.oblige('SPEC', '_compute_box_statistics: boxes are sigma-clipped once', okc, nontrivial=True)
+    if not okc:
+        res.add(Finding('SPEC', f.fullname, 'boxes are sigma-clipped once', f.loc,
+                        '_compute_box_statistics: boxes are sigma-clipped once - none of ' + ' / '.join(clip_forms) + ' found', {}))
+    for w, meaning in (('bkg = ' + nf_text('self.bkg_estimator(data, axis=axis)'), 'background estimator on the clipped box pixels'),
                        ('bkgrms = ' + nf_text('self.bkgrms_estimator(data, axis=axis)'), 'rms estimator on the same pixels'),
                        ('ngood = ' + nf_text('np.count_nonzero(~np.isnan(data), axis=axis)'), 'number of good pixels per box'),
                        ('box_mask = ' + nf_text('ngood <= self._good_npixels_threshold'), 'boxes with too few good pixels are excluded')):
